@@ -360,13 +360,6 @@ def tagsOK (tags : String) (recs : List SRRec) (h : Heap UInt64 XP) : Bool :=
       let inited := (h r.canon).p.2
       c == 'B' || (inited && c == 'I') || (!inited && c == 'F')
 
-/-- `projections[strings.ToLower(name)]` for the names the generator uses -/
-def ctorOfName (n : String) : Ctor :=
-  if n == "longlat" || n == "identity" then .longlat
-  else if n == "merc" then .merc else if n == "tmerc" then .tmerc else if n == "utm" then .utm
-  else if n == "lcc" then .lcc else if n == "aea" then .aea else if n == "eqdc" then .eqdc
-  else if n == "krovak" then .krovak else .unknown
-
 /-- the fields one constructor run changed on the real SR (`wd` section) lie in the model's write set -/
 def wdBad (secs : List Tok) : Option String :=
   secs.findSome? fun s =>
